@@ -54,6 +54,9 @@ func (ac authCase) scenario() (*DialScenario, *saslServer) {
 		}
 		return SrvAction{}, false
 	}
+	if v := uint64(len(ac.user)*5 + len(ac.pass)*3 + ac.iter + ac.tlsMode); v%2 == 1 {
+		sc.Variant = v
+	}
 	return sc, ss
 }
 
